@@ -1832,12 +1832,17 @@ def bipartite_random_regular(l, r, d, seed=None):
     if l < 0 or r < 0 or d < 0:
         raise ValueError("bipartite_random_regular(l,r,d) needs l,r,d >=0.")
 
-    if (l * d) % r != 0:
+    if d > r:
+        raise ValueError("bipartite_random_regular(l,r,d) needs d <= r.")
+
+    if r > 0 and (l * d) % r != 0:
         raise ValueError(
             "bipartite_random_regular(l,r,d) needs r to divid l*d.")
 
     G = BipartiteGraph(l, r)
     G.name = "bipartite_random_regular({},{},{})".format(l, r, d)
+    if r == 0:
+        return G
 
     L, R = G.parts()
     A = list(L) * d
